@@ -176,7 +176,8 @@ def run_core(prop, tier, seed, t0, replay_item=None):
             if prop == "C05" and i % 2 == 0:
                 cfg.update({"comp": "", "enc": "", "sig": ""})   # member data = content needs the plain pipeline
             items.append({"id": "%s-%s-%d-%d" % (prop, gname, seed, i), "cfg": cfg, "conc": cc, "steps": steps,
-                          "oracles": [prop], "c07every": tier == "thorough" and i % 5 == 0, "pool": pool, "gen": gname})
+                          "oracles": [prop], "c07every": tier == "thorough" and i % 5 == 0, "pool": pool, "gen": gname,
+                          "gnutar": prop == "C05" and (tier == "thorough" or i % 4 == 0)})
     if replay_item is None and prop == "C01":
         items.append(symlink_witness())
     res, crashed = core.run_batches(runner, "replay", items, per_batch=6 if tier == "quick" else 12,
